@@ -26,15 +26,6 @@ CORPUS = os.path.join(fw.VERIF, "corpus", "registry")
 KNOWN_SIGNATURES = [
     {"id": "D10", "property": "C14", "oracle": "INV", "key": ("shared_duplicate", "shared_anonymous"), "op": ("SetName",),
      "text": "set_name on a shared property creates a duplicate/anonymous shared property (D10)"},
-    # create_shared_property("") / create_persistent_property(""): internal_find_property returns nothing for the empty
-    # name, so an anonymous SHARED (and persistent) property is created, any number of times
-    {"id": "F2-anonymous-create", "property": "C14", "oracle": "INV", "key": ("shared_duplicate", "shared_anonymous"),
-     "op": ("CreateShared", "CreatePersistent"), "name_token": "0",
-     "text": "create_shared_property/create_persistent_property with the empty name create an anonymous shared property"},
-    # a persistent Vec3d vertex property named "ovm:position" (e.g. set_persistent(vertex_positions())) is cloned by the
-    # copy constructor / operator=, then GeometryKernel::make_prop() dereferences the empty optional
-    {"id": "F4-persistent-position", "property": "C13", "oracle": "UB", "key": ("UB 1",), "op": ("CopyMesh", "Assign"),
-     "text": "copying / assigning from a mesh whose position property is persistent dereferences an empty optional in GeometryKernel::make_prop"},
 ]
 
 def sig_listed(sig):
